@@ -42,6 +42,7 @@ impl C01 {
     }
 }
 
+pub fn ofam(enc: &'static Encoding) -> &'static str { family(enc.output_encoding()) }
 pub fn family(enc: &'static Encoding) -> &'static str { if enc.is_single_byte() && enc != X_USER_DEFINED { "single-byte" } else { enc.name() } }
 
 pub fn run(ctx: &Ctx, ev: &mut Ev) {
